@@ -42,7 +42,7 @@ CHECKS = {
         "variants": [
             {"name": "sched", "run": "^TestVerif_C06_Sched$",
              "instrument": [job("$REPO/gsfa", MOD + "/gsfa", ["gsfa-write.go"], rules=GSFA_SHRINK)] + GSFA_PERF},
-            {"name": "real", "run": "^TestVerif_C06_Real$", "instrument": [], "shards": {"quick": 4, "thorough": 6}},
+            {"name": "real", "run": "^TestVerif_C06_Real$", "instrument": [], "shards": {"quick": 5, "thorough": 7}},
             {"name": "reclen", "run": "^TestVerif_C06_RecLen$", "instrument": [], "shards": {"quick": 1, "thorough": 1}},
             {"name": "real-race", "run": "^TestVerif_C06_Real$", "race": True, "tiers": ["thorough"], "instrument": [], "shards": {"quick": 1, "thorough": 2}},
         ],
